@@ -25,11 +25,11 @@ RULE = ("two inverter objects (all ordered pairs of 8 templates: ET 205 eco-v2 /
         "distinct = distinct (template pair, call sequences, interleaving) tuples")
 ASSUMPTIONS = ["results are compared by type name, str() and (for eco-mode / schedule values) their public fields",
                "each transcript runs in its own interpreter started by the check (subprocess per transcript)"]
-MUST = ["retransmitting_pairs", "transcripts", "interleavings_compared", "concurrent_interleavings", "snapshots_checked", "eco_values_snapshotted",
+MUST = ["values_kept_while_registers_change", "same_model_different_capabilities_pairs", "retransmitting_pairs", "transcripts", "interleavings_compared", "concurrent_interleavings", "snapshots_checked", "eco_values_snapshotted",
         "cross_family_pairs", "same_template_pairs", "requests_compared", "concurrent_with_fragmented_answers", "long_history_pairs", "same_host_pairs", "drifting_measurements_pairs"]
 EXHAUSTIVE = {"quick": False, "thorough": False}
 
-TEMPLATES = ["ET205", "ET205g", "ET205u", "ET745", "ETv1", "ETf", "ETc", "DT", "DTu", "DTc", "ESv1", "ESv2", "ESv2g"]
+TEMPLATES = ["ET205", "ET205g", "ET205u", "ET745", "ETv1", "ETf", "ETc", "ETr", "DT", "DTu", "DTc", "DTn", "ESv1", "ESv2", "ESv2g"]
 
 
 # ---- worker side: one transcript per interpreter -------------------------------------------------------------------
@@ -37,8 +37,10 @@ def build_sim(tpl, seed, owner):
     rnd = random.Random(seed)
     if tpl.startswith("ET"):
         tag = "ETT" if tpl == "ET745" else "ETU"
-        sim = models.et_sim(owner, tag=tag, refused_blocks=["eco_v2", "peak_shaving"] if tpl == "ETv1" else [], rnd=rnd,
-                            style="ff" if tpl == "ETf" else "random")
+        # (ETr: the same model NAME as the others, but this unit's firmware refuses the optional runtime blocks)
+        sim = models.et_sim(owner, tag=tag, refused_blocks=["eco_v2", "peak_shaving"] if tpl == "ETv1" else
+                            (["meter_ext2", "meter_ext", "mppt", "battery"] if tpl == "ETr" else []), rnd=rnd,
+                            style="ff" if tpl == "ETf" else "random", **({"rated": 20000} if tpl == "ETr" else {}))
         typ = 6 if tpl == "ET745" else 0
         for gi, base in enumerate((47547, 47553, 47559, 47565)):
             onoff = rnd.choice((typ, 255 - typ))
@@ -60,8 +62,9 @@ def build_sim(tpl, seed, owner):
         if tpl == "ETc":                # the inverter's clock was never set: an impossible date in the runtime block
             sim.set_bytes(35100, bytes(6))
         return sim
-    if tpl in ("DT", "DTu", "DTc"):
-        sim = models.dt_sim(owner, tag=rnd.choice(("DTU", "DSN")), rnd=rnd, style="random")
+    if tpl in ("DT", "DTu", "DTc", "DTn"):
+        # (DTn: same model name, no smart meter attached: the meter block is refused)
+        sim = models.dt_sim(owner, tag=rnd.choice(("DTU", "DSN")), rnd=rnd, style="random", refused_blocks=["meter"] if tpl == "DTn" else [])
         if tpl == "DTc":
             sim.set_bytes(30100, bytes(6))
         if tpl == "DTu":                # undefined (all-ones) counters and values on this inverter
@@ -142,6 +145,10 @@ def worker(spec):
 
     async def call(i, c):
         inv = invs[i]
+        if c[0] == "__setregs__":           # not a library call: the inverter's registers change (somebody reconfigured it at its display)
+            sims_[i].set_bytes(c[1], bytes.fromhex(c[2]))
+            results[i].append(["ok", None])
+            return
         try:
             v = await getattr(inv, c[0])(*[conv(a) for a in c[1:]])
             snap = snapshot(v)
@@ -296,6 +303,10 @@ def scenario_check(sc, part, workdir):
         part.count("long_history_pairs")
     if sc.get("lossy"):
         part.count("retransmitting_pairs")
+    if sc.get("capabilities"):
+        part.count("same_model_different_capabilities_pairs")
+    if sc.get("changing"):
+        part.count("values_kept_while_registers_change")
     if sc.get("same_host"):
         part.count("same_host_pairs")
     if sc.get("drifting"):
@@ -384,6 +395,39 @@ def directed_scenarios(seed):
     return out
 
 
+def capability_scenarios(seed):
+    """two inverters that report the same model name but differ in what they offer (no smart meter / optional blocks refused by the firmware):
+    what one object learns about ITS inverter must not change what the other object polls"""
+    out = []
+    rr = [["read_runtime_data"], ["read_runtime_data"], ["read_runtime_data"]]
+    for a, b in (("DTn", "DT"), ("DT", "DTn"), ("DTn", "DTn"), ("ETr", "ET205"), ("ET205", "ETr"), ("ETr", "ET745"), ("ETr", "ETr")):
+        out.append({"seed": f"{seed}:cap:{a}:{b}", "n_random_merges": 2, "n_concurrent": 1, "capabilities": True,
+                    "objects": [{"template": a, "port": 8899, "seed": f"{seed}:cA{len(out)}", "calls": rr},
+                                {"template": b, "port": 8899 if len(out) % 2 else 502, "seed": f"{seed}:cB{len(out)}", "calls": rr}]})
+    return out
+
+
+def changing_content_scenarios(seed):
+    """one object reads the same schedule group again and again while the inverter's registers change between the reads - valid content, then
+    content that cannot be decoded, then other valid content: every value handed out keeps what it held when it was returned"""
+    out = []
+    v1 = "0100020aff7fffd8005a0000"        # 1:00-2:10 on, every day, -40 %, SoC 90
+    bad = "0100020aff7fffd800c80000"       # SoC 200 %: undecodable
+    bad2 = "1900020aff7fffd8005a0000"      # start hour 25: undecodable
+    v2 = "051e062dff150019003200ff"[:24]   # 5:30-6:45 on, Mon/Wed/Fri, 25 %, SoC 50
+    for a, b in (("ET205", "ET205"), ("ET745", "ET205"), ("ESv2", "ET205"), ("ET205", "ESv2")):
+        for grp, base in (("eco_mode_1", 47547), ("eco_mode_3", 47559)):
+            for seq in ((v1, bad, v2), (v1, bad2, v2), (v1, v2, bad, v1), (v2, bad, bad2, v1)):
+                ca = []
+                for content in seq:
+                    ca += [["__setregs__", base, content], ["read_setting", grp]]
+                ca += [["read_settings_data"]] if a.startswith("ET") and len(out) % 2 else []
+                out.append({"seed": f"{seed}:chg:{a}:{b}:{len(out)}", "n_random_merges": 1, "n_concurrent": 0, "changing": True,
+                            "objects": [{"template": a, "port": 8899, "seed": f"{seed}:gA{len(out)}", "calls": ca},
+                                        {"template": b, "port": 8899, "seed": f"{seed}:gB{len(out)}", "calls": [["read_setting", "eco_mode_1"], ["read_runtime_data"]]}]})
+    return out
+
+
 def fragment_scenarios(seed):
     """both inverters answer every request in two pieces (header first, the rest 0.04 s later) while the two objects' calls overlap:
     the reassembly state of one object must not be disturbed by the other object's traffic"""
@@ -459,7 +503,7 @@ def run_shard(spec):
     part = Part()
     tier = spec["tier"]
     rnd = random.Random(f"{spec['seed']}:C20")
-    scs = directed_scenarios(spec["seed"]) + fragment_scenarios(spec["seed"]) + long_history_scenarios(spec["seed"]) + same_host_scenarios(spec["seed"]) + drift_scenarios(spec["seed"]) + lossy_scenarios(spec["seed"])
+    scs = directed_scenarios(spec["seed"]) + fragment_scenarios(spec["seed"]) + long_history_scenarios(spec["seed"]) + same_host_scenarios(spec["seed"]) + drift_scenarios(spec["seed"]) + lossy_scenarios(spec["seed"]) + capability_scenarios(spec["seed"]) + changing_content_scenarios(spec["seed"])
     pairs = list(itertools.product(TEMPLATES, repeat=2))
     reps = 1 if tier == "quick" else 12
     for r in range(reps):
